@@ -91,7 +91,8 @@ public:
   }
 
   const ValueT& at(const KeyT& k) const {
-    Item& item = this->items.at(k);
+    // only the (mutable) recency links of the item are changed
+    Item& item = const_cast<Item&>(this->items.at(k));
     this->touch_item(item);
     return item.value;
   }
